@@ -288,6 +288,9 @@ func (fe *FnExec) atReturn(fr *frame, st *State, x *ssa.Return, rv []Val) {
 			ctx := &EvalCtx{fe: fe, st: st, old: fr.entry, binds: binds, pkg: fe.eng.pkgOfKey(ik), conFile: ic.File}
 			ctx.bindResults(isig, rv)
 			for _, en := range ic.Ensures {
+				if con.ImplExcept[ik+"#"+en.Label] {
+					continue
+				}
 				g := ctx.evalBool(en.X)
 				fe.oblige(fr, "implements:"+shortKey(ik)+":"+en.Label, en.Props, st.pc, g, x.Pos(), en.Src)
 			}
